@@ -216,7 +216,19 @@ def lcs : Handler := fun args impl =>
                 else some s!"C11 {n}: the stream dies at byte {d} = {el}:{ec}, first error reported at {p}"
               | some (_, cat, p) => some s!"C11 {n}: the stream dies at byte {d} = {el}:{ec}, first error is {cat} at {p}"
               | none => some s!"C11 {n}: the stream dies at byte {d} = {el}:{ec}, no error reported"
-        { model := m .str o1 ++ "|" ++ m .slice o2 ++ "|" ++ m .reader o3, specs := panics ++ c09 ++ c12 ++ c11 }
+        -- nesting-limit clause: the first error item, when it is the nesting-limit error, sits exactly at the 128th opening
+        -- bracket of its item (lexical scan `Spec.Pos.depthOpener`; whether or not the stream is grammar-dead anywhere)
+        let c11d := [("str", o1), ("slice", o2), ("reader", o3)].filterMap fun (n, o) =>
+          if o == "-" then none else
+          match firstErrPos o with
+          | some (msg, "syntax", p) =>
+            if SJ.Drv.C01.isDepthMsg msg then
+              (match p.splitOn ":" with
+               | [l, c] => SJ.Drv.C01.judgeDepthPos n bs (l.toNat?.getD 0) (c.toNat?.getD 0)
+               | _ => some s!"C11 {n}: unreadable position {p}")
+            else none
+          | _ => none
+        { model := m .str o1 ++ "|" ++ m .slice o2 ++ "|" ++ m .reader o3, specs := panics ++ c09 ++ c12 ++ c11 ++ c11d }
       | _ => bad "obs"
     | _, _, _ => bad "decode"
   | _ => bad "arity"
